@@ -325,6 +325,11 @@ class TokEncoder:
     def write_float(self, datum):
         if not isinstance(datum, (int, float)):
             raise struct.error("required argument is not a float")
+        # struct.pack('<f') raises OverflowError for a finite value that rounds to +-inf in binary32
+        # (boundary proved against the real encoder by E1: C02 layer 1)
+        if datum == datum and datum not in (float("inf"), float("-inf")) and (
+                datum >= 3.4028235677973366e38 or datum <= -3.4028235677973366e38):
+            raise OverflowError("float too large to pack with f format")
         self._fo.put(("float", float(datum)))  # struct.pack converts an int to a float
 
     def write_double(self, datum):
